@@ -251,7 +251,22 @@ fn rand_call(rng: &mut StdRng, d: &Driver, mode: &mut u8) -> CallSpec {
     let mk = |op: &str, targ: u32, ty: u32, dy: u32, p: i64, gs: Vec<u32>, shape: Vec<ShapeM>| CallSpec { op: op.to_string(), targ, ty, dy, p, gs, shape };
     let live: Vec<u32> = d.table.keys().cloned().collect();
     // mode 0: building (mutating calls preferred while no guard lives), 1: borrowing
-    if live.is_empty() && (*mode == 0 || rng.gen_bool(0.15)) {
+    // step-wise meta-table iteration: an iterator is an object of the history like a guard
+    let its: Vec<u32> = d.iters.keys().cloned().collect();
+    let meta_shape = |k: &str| -> Vec<ShapeM> { (1..=nt).map(|t| ShapeM { k: k.into(), t }).collect() };
+    if !its.is_empty() && rng.gen_bool(0.4) {
+        let it = *its.choose(rng).unwrap();
+        return if rng.gen_bool(0.8) { mk("miter_next", 0, 0, 0, 0, vec![it], vec![]) } else { mk("miter_drop", 0, 0, 0, 0, vec![it], vec![]) };
+    }
+    if its.len() < 2 && live.len() < 6 && rng.gen_bool(if *mode == 1 { 0.05 } else { 0.02 }) {
+        let it = (1..).find(|i| !its.contains(i)).unwrap();
+        return if rng.gen_bool(0.5) {
+            mk("miter_new", 0, 0, 0, 0, vec![it], meta_shape("optread"))
+        } else {
+            mk("miter_new_mut", 0, 0, 0, 0, vec![it], meta_shape("optwrite"))
+        };
+    }
+    if live.is_empty() && its.is_empty() && (*mode == 0 || rng.gen_bool(0.15)) {
         if rng.gen_bool(0.12) {
             *mode = 1;
         }
@@ -341,6 +356,19 @@ fn random(a: &Args) {
                     Some(c) => c,
                     None => rand_call(&mut rng, &d, &mut mode),
                 };
+                if c.op.starts_with("miter_new") && rng.gen_bool(0.5) {
+                    // directed: step the iterator while fetching resources it has not yielded yet
+                    let it = c.gs[0];
+                    let nxt = CallSpec { op: "miter_next".into(), gs: vec![it], ..Default::default() };
+                    for _ in 0..rng.gen_range(1..=3) {
+                        follow.push_back(nxt.clone());
+                        let t = rng.gen_range(1..=nt as u32);
+                        let op = *["try_fetch", "try_fetch_mut", "try_fetch_by_id", "fetch"].choose(&mut rng).unwrap();
+                        follow.push_back(CallSpec { op: op.into(), targ: t, ty: t, dy: 0, ..Default::default() });
+                    }
+                    follow.push_back(nxt.clone());
+                    follow.push_back(nxt);
+                }
                 if (c.op == "remove" || c.op == "remove_by_id") && c.targ == c.ty.max(if c.op == "remove" { c.targ } else { 0 }) {
                     let (ty, dy) = if c.op == "remove" { (c.targ, 0) } else { (c.ty, c.dy) };
                     let mut sib: Vec<(u32, u32)> = (0..nd as u32).filter(|&x| x != dy).map(|x| (ty, x)).collect();
